@@ -303,7 +303,7 @@ def o_c14_seq(params, cases, outs):
     vs, va, vb = py_u64(size), py_u64(start), py_u64(end)
     ok = vs is not None and strand in (b"+", b"-") and va is not None and vb is not None and va <= vb
     if not ok:
-        return None if o.startswith("err ") else "constructor accepted an invalid sequence: %s" % o
+        return None if o.split(" ")[0] == "err" else "constructor accepted an invalid sequence: %s" % o
     if not o.startswith("ok "):
         return "constructor refused a valid sequence (start<=end): %s" % o
     parts = o.split(" ")
@@ -327,7 +327,7 @@ def o_c14_drec(params, cases, outs):
     o = outs[0]
     good = (dt == "-" and dq == "-") if kind == "T" else (dt != "-" and dq != "-")
     if not good:
-        return None if o.startswith("err ") else "record constructor accepted gaps inconsistent with the kind: %s" % o
+        return None if o.split(" ")[0] == "err" else "record constructor accepted gaps inconsistent with the kind: %s" % o
     exp = "ok %s/%s/%s/%s" % (size, dt, dq, kind)
     if not o.startswith(exp + " "):
         return "record constructor gave %s, expected %s" % (o, exp)
